@@ -94,6 +94,18 @@ def step16 (d : D16) (op : String) (got : String) : StepResult D16 :=
                     cov := if (op.splitOn " ").length == 4 then ["via-management"] else [] }
       | none => { st := d, expected := some "bad-op" }
     | _ => { st := d, expected := some "bad-op" }
+  else if op.startsWith "atomic," then
+    -- one RIB operation that touches n prefixes is ONE step towards lookups: an observer between two FIB writes of
+    -- the same operation never sees the operation's face at some of the prefixes and not at the others
+    match ((op.drop 7).toString).toNat? with
+    | none => { st := d, expected := some "bad-op" }
+    | some n =>
+      if isCrash got then { st := d, spec := crashSpec got }
+      else
+        let want := s!"n={n} torn=0"
+        { st := d, expected := some want, cov := ["operation-atomic"] ++ (if n > 256 then ["operation-atomic-over-256"] else []),
+          spec := if got != want then
+            [⟨"operation-atomic", "torn", s!"one RIB operation over {n} prefixes was installed in several FIB writes and a lookup between two of them saw it at some prefixes only: {got} (each lookup returns a state lying BETWEEN the operations that overlap it)"⟩] else [] }
   else if op.startsWith "faces," then
     -- concurrent registrations in the face table: each face gets its own identifier and is found
     -- under it (and no longer after removal); sequential specification of `Table.Add/Get/Remove`
